@@ -19,6 +19,14 @@ type hcase struct {
 	//                      resolution of a type set creates are loaders of the model too)
 	adds map[int]string // step -> the Gallina term of an AddTypes operation (the types as they were parsed)
 	ctx  []int          // step -> the model's number of the loader that the context of the operation's loader holds afterwards
+	clause string       // the clause of full.go that step `bad` violates ("" = the step's output differs from the reference's)
+}
+
+func clauseAt(hc hcase, ops []opT, bad int) string {
+	if hc.clause != "" {
+		return hc.clause
+	}
+	return clauseOf(ops[bad], hc.outs[bad])
 }
 
 func (c hcase) gallina() string {
@@ -52,6 +60,7 @@ func (c hcase) gallina() string {
 func runHistory(c px.Context, ops []opT) (hc hcase, bad int, want string) {
 	w := newWorld(c)
 	r := newRefWorld()
+	fs := newFullState()
 	bad = -1
 	hc.ops = ops
 	hc.adds = map[int]string{}
@@ -91,6 +100,8 @@ func runHistory(c px.Context, ops []opT) (hc hcase, bad int, want string) {
 		if project(got) != exp {
 			bad = i
 			want = exp
+		} else if cl, what := fs.checkFull(w, r, o, got); cl != "" {
+			bad, want, hc.clause = i, what, cl
 		}
 	}
 	return
@@ -118,7 +129,7 @@ func shrink(c px.Context, ops []opT, clause string) []opT {
 			}
 			cand := append(append([]opT{}, cur[:i]...), cur[i+1:]...)
 			hc, bad, _ := runHistory(c, cand)
-			if bad == len(cand)-1 && clauseOf(cand[bad], hc.outs[bad]) == clause {
+			if bad == len(cand)-1 && clauseAt(hc, cand, bad) == clause {
 				cur = cand
 				changed = true
 			}
@@ -171,7 +182,7 @@ func (r *runner) check(ops []opT, cf *lib.CasesFile, toCoq bool, family string) 
 		r.res.Count("history.nontrivial")
 	}
 	if bad >= 0 {
-		clause := clauseOf(ops[bad], hc.outs[bad])
+		clause := clauseAt(hc, ops, bad)
 		small := ops[:bad+1]
 		r.nviol++
 		if r.nviol <= 8 {
@@ -259,7 +270,7 @@ func (r *runner) replay() {
 		}
 		if bad >= 0 {
 			fmt.Printf("FAILS at step %d: %s returned %s, the specification says %s\n", bad, x.Ops[bad], hc.outs[bad], want)
-			r.res.Violate(lib.Violation{Clause: clauseOf(x.Ops[bad], hc.outs[bad]),
+			r.res.Violate(lib.Violation{Clause: clauseAt(hc, x.Ops, bad),
 				What:  fmt.Sprintf("step %d %s returned %s, the specification says %s", bad, x.Ops[bad], hc.outs[bad], want),
 				Input: input(x.Ops[:bad+1])})
 		} else {
